@@ -843,6 +843,16 @@ func writeReset(pkg *packages.Package, dst string) {
 		}
 	}
 	b.WriteString("}\n")
+	if field("global", "loggers") {
+		b.WriteString("\n// VerifLoggers returns the loggers of the live configuration (read-only probe).\nfunc VerifLoggers() []Logger { return append([]Logger(nil), global.loggers...) }\n")
+	} else {
+		b.WriteString("\nfunc VerifLoggers() []Logger { return nil }\n")
+	}
+	if field("global", "appenders") {
+		b.WriteString("\n// VerifAppenders returns the appenders of the live configuration (read-only probe).\nfunc VerifAppenders() []Appender { return append([]Appender(nil), global.appenders...) }\n")
+	} else {
+		b.WriteString("\nfunc VerifAppenders() []Appender { return nil }\n")
+	}
 	if err := os.WriteFile(filepath.Join(dst, "zz_verif_reset.go"), []byte(b.String()), 0o644); err != nil {
 		fatal("%v", err)
 	}
